@@ -16,8 +16,10 @@ pub mod c09;
 pub mod c01;
 pub mod c02;
 pub mod c03;
+pub mod c10;
 pub mod c12;
 pub mod c13;
+pub mod c14;
 pub mod c0405;
 pub mod msg;
 pub mod c19;
@@ -28,8 +30,10 @@ pub mod tree;
 pub fn lookup(id: &str) -> Option<Box<dyn Prop>> {
     match id {
         "C09" => Some(Box::new(c09::C09)),
+        "C10" => Some(Box::new(c10::C10)),
         "C12" => Some(Box::new(c12::C12)),
         "C13" => Some(Box::new(c13::C13)),
+        "C14" => Some(Box::new(c14::C14)),
         "C19" => Some(Box::new(c19::C19)),
         "C01" => Some(Box::new(c01::C01)),
         "C02" => Some(Box::new(c02::C02)),
@@ -46,8 +50,11 @@ pub fn lookup(id: &str) -> Option<Box<dyn Prop>> {
 }
 
 /// subprocess worker entry (none yet)
-pub fn worker(_args: &[String]) -> i32 {
-    2
+pub fn worker(args: &[String]) -> i32 {
+    match args.first().map(|s| s.as_str()) {
+        Some("seeded") => c14::worker_seeded(args.get(1).map(|s| s.as_str()).unwrap_or("")),
+        _ => 2,
+    }
 }
 
 // ---- shared conversions between reference integers and the subject's field type ----
